@@ -8,6 +8,7 @@ Definition tbl := Tables.snapper_table.
 Inductive c11case :=
 | CReseat (l : list bcs) (out : option (list bcs))                 (* exact stream: structural equality *)
 | CReseatR (l : list bcs) (out : option (list bcs))                (* rounded stream: no structural comparison *)
+| CReseatTie (l : list bcs) (out : option (list bcs))              (* two changes on one position: weaker oracle *)
 | CFromReseat (init : Q) (l : list bcs) (out : option (list bco))
 | CTmReseat (l : list bco) (out : option (list bco)).
 
@@ -33,6 +34,15 @@ Definition check (c : c11case) : verdict :=
                     | RExc, None => true
                     | _, _ => false end;
          spec_ok := negb wf || match out with Some r => reseat_specb ls r | None => false end;
+         wf_ok := wf |}
+  | CReseatTie l out =>
+      let ls := sort_by bcs_lt l in
+      let wf := wf_ties ls in
+      {| corr_ok := match reseat l, out with
+                    | ROk a, Some b => bcs_list_eqb a b
+                    | RExc, None => true
+                    | _, _ => false end;
+         spec_ok := negb wf || match out with Some r => reseat_specb_ties ls r | None => false end;
          wf_ok := wf |}
   | CReseatR l out =>
       {| corr_ok := true; spec_ok := true; wf_ok := true |}
